@@ -1,6 +1,6 @@
 (** Executable comparison ([…_model]) and property oracle ([…_spec]) used by the C18
     correspondence check (kernel evaluation on what the real registries returned). *)
-From SioV Require Import Base.GoSem Sio.HandlerStore.
+From SioV Require Import Base.GoSem Sio.HandlerStore Sio.HandlerStoreHeap.
 
 (** What the occurrences of one run returned, as a digit stream: per occurrence one digit (id+1,
     ids 0..5) per handler run and a closing 0.  The harness sends the same digits (as one base-8
@@ -170,3 +170,71 @@ Definition race_oracle (c : list (N * N) * list (N * N)) : bool :=
   let '(once_hist, on_runs) := c in
   forallb (fun x => N.leb (fst x) 1 || N.eqb (snd x) 0) once_hist &&
   forallb (fun x => N.eqb (fst x) (snd x)) on_runs.
+
+(** *** Occurrences in progress (re-entrant / concurrent registry calls during a dispatch).
+    The harness records what it executed as a flat step list: a registry call, the start of
+    occurrence number k (its getAll), "the loop of occurrence k handed handler id to the
+    dispatcher" (then follow the calls that handler - or another goroutine meanwhile - made), the end
+    of the loop of occurrence k. *)
+Inductive ostep (X : Type) := OOp (o : X) | OBegin (o : X) | ONext (k id : N) | OEnd (k : N).
+Arguments OOp {X}. Arguments OBegin {X}. Arguments ONext {X}. Arguments OEnd {X}.
+
+(** the call history: an occurrence counts where its getAll ran *)
+Definition hist {X} (steps : list (ostep X)) : list X :=
+  flat_map (fun s => match s with OOp o | OBegin o => [o] | _ => [] end) steps.
+Definition obs_of {X} (steps : list (ostep X)) (k : N) : list N :=
+  flat_map (fun s => match s with ONext k' id => if N.eqb k' k then [id] else [] | _ => [] end) steps.
+Definition ended {X} (steps : list (ostep X)) (k : N) : bool :=
+  existsb (fun s => match s with OEnd k' => N.eqb k' k | _ => false end) steps.
+Definition nbegins {X} (steps : list (ostep X)) : nat :=
+  length (filter (fun s => match s with OBegin _ => true | _ => false end) steps).
+
+(** every occurrence ran exactly the expected handlers, in order, and its loop ended *)
+Fixpoint disp_ok_from {X} (steps : list (ostep X)) (k : N) (expected : list (list N)) : bool :=
+  match expected with
+  | [] => true
+  | l :: r => list_eqb N.eqb (obs_of steps k) l && ended steps k && disp_ok_from steps (N.succ k) r
+  end.
+Definition disp_ok {X} (steps : list (ostep X)) (expected : list (list N)) : bool :=
+  Nat.eqb (nbegins steps) (length expected) && disp_ok_from steps 0%N expected.
+
+Definition rcase (X : Type) := (list (ostep X) * bool)%type.     (* steps, a call panicked *)
+
+Definition re_ls_agree (c : rcase (op N)) : bool :=
+  let '(steps, p) := c in negb p && disp_ok steps (outs N N.eqb (hist steps)).
+Definition re_ls_oracle (c : rcase (op N)) : bool :=
+  let '(steps, p) := c in negb p && disp_ok steps (spec_outs N N.eqb (hist steps)).
+
+Definition re_api_agree (c : rcase aop) : bool :=
+  let '(steps, p) := c in negb p && disp_ok steps (aouts (hist steps)).
+Definition re_api_oracle (c : rcase aop) : bool :=
+  let '(steps, p) := c in negb p && disp_ok steps (spec_outs N N.eqb (map aop_spec (hist steps))).
+Definition re_api_class (c : rcase aop) : bool := let '(steps, _) := c in api_class (hist steps).
+
+(** replay on the heap machine: every loop iteration must hand out the observed handler *)
+Fixpoint heap_replay (st : hstate fval) (steps : list (ostep (eop fval))) : bool :=
+  match steps with
+  | [] => true
+  | OOp o :: r => heap_replay (fst (HandlerStoreHeap.hstep fval same_code st (SOp o))) r
+  | OBegin (EFire e) :: r => heap_replay (fst (HandlerStoreHeap.hstep fval same_code st (SBegin e))) r
+  | OBegin _ :: _ => false
+  | ONext k id :: r =>
+      match HandlerStoreHeap.hstep fval same_code st (SNext (N.to_nat k)) with
+      | (st', Some (_, Some a)) => N.eqb (fdigit a) id && heap_replay st' r
+      | _ => false
+      end
+  | OEnd k :: r =>
+      match nth_error (hdisp fval st) (N.to_nat k) with
+      | Some d => Nat.eqb (didx fval d) (slen (dview fval d)) && heap_replay st r
+      | None => false
+      end
+  end.
+
+Definition edigits (l : list (N * list fval)) : list (list N) := map (fun x => map fdigit (snd x)) l.
+Definition re_es_agree (c : rcase (eop fval)) : bool :=
+  let '(steps, p) := c in
+  negb p && heap_replay (hempty fval) steps
+  && disp_ok steps (edigits (eouts fval same_code (hist steps))).
+Definition re_es_oracle (c : rcase (eop fval)) : bool :=
+  let '(steps, p) := c in negb p && disp_ok steps (edigits (espec_outs fval same_fval (hist steps))).
+Definition re_es_class (c : rcase (eop fval)) : bool := let '(steps, _) := c in es_class (hist steps).
